@@ -92,7 +92,25 @@ def predicate(h):
 
 
 def run(ctx):
-    return storeprop.run(ctx, ID, THEOREMS, "Props/C03.v", PROFILE, (26, 40), 100, 800, predicate, RULE)
+    st = storeprop.run(ctx, ID, THEOREMS, "Props/C03.v", PROFILE, (26, 40), 100, 800, predicate, RULE)
+    # ids SUPPLIED by the caller (oid=): ids are numbers in the model, which cannot express an ill-formed id text -
+    # implementation only: 13 texts x the 3 calls that take an oid
+    recs = ctx.run_impl("impl_oids.py", {})
+    bad = [r for r in recs if r["problems"]]
+    ctx.coverage["supplied_ids"] = len(recs)
+    ctx.coverage["supplied_id_failures"] = len(bad)
+    ctx.coverage["evaluations"] += len(recs)
+    ctx.coverage["rule"] += (" Plus, implementation only: sections and properties created with a caller-supplied id (a canonical "
+                             "UUID; a UUID with a newline / blank / tab / further digits around it, one digit short, with a non-hex "
+                             "digit; empty; a word; a number; None): the resulting id is a well-formed UUID, differs from the "
+                             "other ids, is the key the container finds the entity under, and is the same after reopening.")
+    if bad and not ctx.violations:
+        rp = ctx.write_replay("%s-oids-seed%d.json" % (ID, ctx.seed), {
+            "property": ID, "kind": bad[0]["problems"][0], "input": {"call": bad[0]["call"], "oid": bad[0]["oid"]},
+            "observed": bad[0]["problems"], "count": len(bad)})
+        ctx.violation("%d creations with a supplied id violate C03, e.g. %s(oid=%s): %s" % (
+            len(bad), bad[0]["call"], bad[0]["oid"], bad[0]["problems"][0]), rp)
+    return st
 
 
 def replay(ctx):
